@@ -164,4 +164,14 @@ theorem basisIndexL_set_true (σ : List Bool) (j : ℕ) (hj : j < σ.length) (h0
       have : rest.length + 1 - 1 - (j + 1) = rest.length - 1 - j := by omega
       rw [this]; omega
 
+/-- the row the code computes for index `k` (masks, then reversal), read as a scalar vector, is the function form
+`spaceRow n k` that the state models (`Wave.*`, `Density.rhoFull`, C04's rotations) are evaluated on -/
+theorem rowVec_maskRow {α : Type} [Zero α] [One α] (n k : ℕ) :
+    (rowVec n (maskRow n k) : Fin n → α) = spaceRow n k := by
+  funext j
+  simp only [rowVec, spaceRow, maskRow_eq_map_spaceBit]
+  congr 1
+  rw [List.getD_eq_getElem?_getD, List.getElem?_map, List.getElem?_eq_getElem (by simp)]
+  simp
+
 end QV
